@@ -19,6 +19,10 @@ def make_exception(cls_name, tag):
         return ValueError('injected ' + tag)
     if cls_name == 'KeyError':
         return KeyError('injected ' + tag)
+    if cls_name == 'TypeError':
+        return TypeError('injected ' + tag)
+    if cls_name == 'ArithmeticError':
+        return ArithmeticError('injected ' + tag)
     if cls_name == 'AssertionError':
         return AssertionError('injected ' + tag)
     if cls_name == 'PrivateError':
